@@ -1033,7 +1033,8 @@ pub fn run_c09(tier: Tier) -> i32 {
     let goals = ["fault-with-other-connections-live", "connect-after-a-fault", "oversized-frame", "long-undecodable-frame-of-multibyte-characters"];
     #[cfg(not(zlink_verif_small_buf))]
     let goals = ["fault-with-other-connections-live", "connect-after-a-fault", "long-undecodable-frame-of-multibyte-characters"];
-    run_plan("C09", tier, RULE, a, &goals, plan)
+    a.push("in the notified-state phase (child process `sockets c09-child`) the service's reply streams are the library's notified::State of zlink-tokio / zlink-smol and clients hang up, also while subscribed: the other subscribers still get the latest value, later subscriptions work, callers of Set get their replies".into());
+    run_plan_with("C09", tier, RULE, a, &goals, plan, Some(("sockets", "c09-child", "notified-state-service/subscribers-that-hang-up/tokio+smol(child)", &["subscriber-hangs-up", "state-changes-after-one-of-several-subscribers-hung-up"])))
 }
 
 pub fn run_c10(tier: Tier) -> i32 {
@@ -1072,7 +1073,7 @@ pub fn run_c10(tier: Tier) -> i32 {
         a,
         &["stream-item", "non-final-item-flagged-continues-false", "stream-ends", "calls-pipelined-behind-streaming-call", "stream-ends-with-calls-queued-behind", "other-client-calls-while-stream-open", "calls-arrive-while-stream-open", "client-unwritable-mid-stream"],
         plan,
-        Some(("sockets", "c10-child", "notified-state-service/tokio+smol(child)", &["burst-of-state-changes-while-subscribed", "subscriber-got-the-latest-value", "one-shot-stream"])),
+        Some(("sockets", "c10-child", "notified-state-service/tokio+smol(child)", &["burst-of-state-changes-while-subscribed", "subscriber-got-the-latest-value", "one-shot-stream", "subscriber-hangs-up"])),
     )
 }
 
